@@ -1,7 +1,8 @@
 """C13 -- terminator and padding per ISO 7.4.9 / 7.4.10."""
 import common, enc, gen, sweep, encprop
 
-TOP = ['theories/Props/C13.v', 'theories/Tie/TieTables.v', 'theories/Tie/TiePad.v']
+TOP = ['theories/Props/C13.v', 'theories/Props/C13_chain.v', 'theories/Tie/TieTables.v', 'theories/Tie/TiePad.v', 'theories/Tie/TieEncode.v',
+       'theories/Tie/TieEncodeFull.v', 'theories/Tie/TieEncodeFinal.v']
 WANT = ('c13',)
 RULE = ('every residue of the terminated stream length mod 8 x distance to capacity 0..12 bits for all 44 versions (numeric/alnum/byte '
         'lengths chosen to hit them), plus random cases; the extracted oracle recovers the data codewords from the implementation '
